@@ -332,8 +332,10 @@ class BaseProject(object, metaclass=ABCMeta):
                 )
             
             # Update state of task newly allocated workers and facilities (READY -> WORKING)
-            self.workflow.check_state(self.time, BaseTaskState.WORKING)
-            self.product.check_state()  # product should be checked after checking workflow state
+            # (in absence time nothing starts, unless auto tasks are performed while absence time)
+            if working or perform_auto_task_while_absence_time:
+                self.workflow.check_state(self.time, BaseTaskState.WORKING)
+                self.product.check_state()  # product should be checked after checking workflow state
 
             # 3. Pay cost to all workers and facilities in this time
             if working:
